@@ -1,5 +1,9 @@
-(** C16 -- the property is FALSE for the code as it stands: concrete reachable witnesses, one
-    per defect class, checked by computation on the faithful model. *)
+(** C16 -- what is still FALSE for the code as it stands: the grammar keeps a reference to the
+    caller's rhs graph, so a later mutation of that graph can break the grammar.  (The other
+    classes -- F11, F12, F13, remove_node by id, add_rule / add_factor / add_domain
+    registering before failing -- were repaired in /repo commits 349378f, 80c0f78, 068b525,
+    6c89611; their former witnesses now raise ValueError or succeed harmlessly, see
+    [repaired_*] below.) *)
 From Coq Require Import List Arith Bool.
 Import ListNotations.
 Require Import Fggs.Model.GraphAPI.
@@ -17,116 +21,54 @@ Definition XA := EL 1 [A] false.
 Definition breaks_wf (pre : list op) (o : op) : Prop :=
   wf_b (observe (run init pre)) = true /\ wf_b (observe (fst (step (run init pre) o))) = false.
 
-(** F11: add_edge with a node that re-uses a present id with another label: the edge is
-    attached to a node that is not in the graph *)
-Lemma inv_refuted_F11_add_edge :
-  breaks_wf [NewGraph; AddNode 0 (NVal ax)] (AddEdge 0 fB [NVal bx] (IdStr 0)).
-Proof. split; vm_compute; reflexivity. Qed.
-
-(** F11: the ext setter, same cause *)
-Lemma inv_refuted_F11_set_ext :
-  breaks_wf [NewGraph; AddNode 0 (NVal ax)] (SetExt 0 [NVal bx]).
-Proof. split; vm_compute; reflexivity. Qed.
-
-(** F11 within one argument list: two new nodes sharing an id *)
-Lemma inv_refuted_F11_two_args :
-  breaks_wf [NewGraph] (AddEdge 0 (EL 0 [A; B] true) [NVal ax; NVal bx] (IdStr 0)).
-Proof. split; vm_compute; reflexivity. Qed.
-
-(** remove_node tests presence by id and attachment by value: it removes an attached node *)
-Lemma inv_refuted_remove_node :
-  breaks_wf [NewGraph; AddEdge 0 fA [NVal ax] (IdStr 0)] (RemoveNode 0 bx).
-Proof. split; vm_compute; reflexivity. Qed.
-
-(** F13: Graph.copy forgets the label tables: the copy does not know the label of its own
-    edge (and a later add_edge with a clashing label of the same name is accepted) *)
-Lemma inv_refuted_F13_copy :
-  breaks_wf [NewGraph; AddEdge 0 fA [NVal ax] (IdStr 0)] (Copy 0).
-Proof. split; vm_compute; reflexivity. Qed.
-
-Lemma inv_refuted_F13_two_labels_one_name :
-  let s := run init [NewGraph; AddEdge 0 fA [NVal ax] (IdStr 0); Copy 0;
-                     AddEdge 1 (EL 0 [B] false) [NVal (Node B (Explicit 1))] (IdStr 1)] in
-  match nth_error (observe s) 1 with
-  | Some (ObsG (_, _, edges, _, _) _ _) => map e_label edges = [fA; EL 0 [B] false]
-  | _ => False
-  end.
-Proof. vm_compute. reflexivity. Qed.
-
-(** aliasing: the grammar holds a reference to the caller's rhs graph; changing its external
-    nodes afterwards leaves a rule whose lhs type differs from its rhs type *)
+(** changing the external nodes of a graph after it was added as a rhs leaves a rule whose lhs
+    type differs from its rhs type *)
 Lemma inv_refuted_alias_set_ext :
   breaks_wf [NewGraph; AddNode 0 (NVal ax); SetExt 0 [NVal ax]; NewHRG (SName 2); AddRule 1 XA 0]
             (SetExt 0 []).
 Proof. split; vm_compute; reflexivity. Qed.
 
+(** adding an edge to it gives the grammar a rule that uses a label it has not registered *)
 Lemma inv_refuted_alias_add_edge :
   breaks_wf [NewGraph; NewHRG (SName 2); NewRule 1 1 0] (AddEdge 0 fA [NVal ax] (IdStr 0)).
 Proof. split; vm_compute; reflexivity. Qed.
 
 Theorem C16_inv_refuted :
-  exists s o, reachable s /\ wf_b (observe s) = true /\ wf_b (observe (fst (step s o))) = false.
+  exists s o, reachable s /\ wf_b (observe s) = true /\ guard_wf s o = false /\
+              wf_b (observe (fst (step s o))) = false.
 Proof.
-  exists (run init [NewGraph; AddNode 0 (NVal ax)]), (AddEdge 0 fB [NVal bx] (IdStr 0)).
-  split; [eexists; reflexivity | exact inv_refuted_F11_add_edge].
+  exists (run init [NewGraph; AddNode 0 (NVal ax); SetExt 0 [NVal ax]; NewHRG (SName 2); AddRule 1 XA 0]), (SetExt 0 []).
+  split; [eexists; reflexivity|]. split; [apply inv_refuted_alias_set_ext|].
+  split; [vm_compute; reflexivity | apply inv_refuted_alias_set_ext].
 Qed.
 
-(** * atomicity *)
-Definition not_atomic (pre : list op) (o : op) : Prop :=
-  is_err (snd (step (run init pre) o)) = true /\
-  (if list_eq_dec oobs_eq_dec (observe (fst (step (run init pre) o))) (observe (run init pre)) then true else false) = false.
+(** * the repaired classes: the former witnesses *)
+Definition raises_unchanged (pre : list op) (o : op) : Prop :=
+  snd (step (run init pre) o) = RErr ValueErr /\ objs (fst (step (run init pre) o)) = objs (run init pre).
 
-(** F12: add_edge adds the missing nodes before add_edge_label raises *)
-Lemma atomic_refuted_F12 :
-  not_atomic [NewGraph; AddEdgeLabel 0 fA] (AddEdge 0 fB [NVal bx] (IdStr 0)).
+Lemma repaired_F11_add_edge : raises_unchanged [NewGraph; AddNode 0 (NVal ax)] (AddEdge 0 fB [NVal bx] (IdStr 0)).
+Proof. split; vm_compute; reflexivity. Qed.
+Lemma repaired_F11_set_ext : raises_unchanged [NewGraph; AddNode 0 (NVal ax)] (SetExt 0 [NVal bx]).
+Proof. split; vm_compute; reflexivity. Qed.
+Lemma repaired_F11_two_args : raises_unchanged [NewGraph] (AddEdge 0 (EL 0 [A; B] true) [NVal ax; NVal bx] (IdStr 0)).
+Proof. split; vm_compute; reflexivity. Qed.
+Lemma repaired_remove_node : raises_unchanged [NewGraph; AddEdge 0 fA [NVal ax] (IdStr 0)] (RemoveNode 0 bx).
+Proof. split; vm_compute; reflexivity. Qed.
+Lemma repaired_F12 : raises_unchanged [NewGraph; AddEdgeLabel 0 fA] (AddEdge 0 fB [NVal bx] (IdStr 0)).
+Proof. split; vm_compute; reflexivity. Qed.
+Lemma repaired_add_rule :
+  raises_unchanged [NewGraph; AddEdge 0 fA [NVal ax] (IdStr 0); NewHRG (SName 2); AddEdgeLabel 1 fB] (NewRule 1 1 0).
+Proof. split; vm_compute; reflexivity. Qed.
+Lemma repaired_add_factor :
+  raises_unchanged [NewFactorGraph; AddDomain 0 A [0; 1]] (AddFactor 0 fA (Fac [[0; 1]; [0; 1]] 0)).
+Proof. split; vm_compute; reflexivity. Qed.
+Lemma repaired_add_domain :
+  raises_unchanged [NewFactorGraph; AddDomain 0 A [0; 1]; Copy 0] (AddDomain 1 A [0; 1]).
 Proof. split; vm_compute; reflexivity. Qed.
 
-(** add_rule / new_rule register the lhs and the node labels before an edge label clashes *)
-Lemma atomic_refuted_add_rule :
-  not_atomic [NewGraph; AddEdge 0 fA [NVal ax] (IdStr 0); NewHRG (SName 2); AddEdgeLabel 1 fB] (NewRule 1 1 0).
+(** F13: the copy now shows the label tables, and rejects a clashing label *)
+Lemma repaired_F13 :
+  let s := run init [NewGraph; AddEdge 0 fA [NVal ax] (IdStr 0); Copy 0] in
+  nth_error (observe s) 1 = nth_error (observe s) 0 /\
+  snd (step s (AddEdge 1 (EL 0 [B] false) [NVal (Node B (Explicit 1))] (IdStr 1))) = RErr ValueErr.
 Proof. split; vm_compute; reflexivity. Qed.
-
-(** add_factor registers the edge label before the arity / domain checks *)
-Lemma atomic_refuted_add_factor :
-  not_atomic [NewFactorGraph; AddDomain 0 A [0; 1]] (AddFactor 0 fA (Fac [[0; 1]; [0; 1]] 0)).
-Proof. split; vm_compute; reflexivity. Qed.
-
-(** add_domain registers the node label before it finds the name mapped (reachable through a
-    FactorGraph copy, whose node-label table is rebuilt from the nodes only) *)
-Lemma atomic_refuted_add_domain :
-  not_atomic [NewFactorGraph; AddDomain 0 A [0; 1]; Copy 0] (AddDomain 1 A [0; 1]).
-Proof. split; vm_compute; reflexivity. Qed.
-
-Theorem C16_failure_atomic_refuted :
-  exists s o, reachable s /\ is_err (snd (step s o)) = true /\ observe (fst (step s o)) <> observe s.
-Proof.
-  exists (run init [NewGraph; AddEdgeLabel 0 fA]), (AddEdge 0 fB [NVal bx] (IdStr 0)).
-  split; [eexists; reflexivity|].
-  destruct atomic_refuted_F12 as [H1 H2]. split; [exact H1|].
-  intro E. rewrite E in H2.
-  destruct (list_eq_dec oobs_eq_dec _ _) in H2; [discriminate | congruence].
-Qed.
-
-(** * copies *)
-(** F13: a copy of a Graph does not show the label tables of its original *)
-Theorem C16_copy_refuted :
-  exists s h, reachable s /\
-    let s' := fst (step s (Copy h)) in
-    snd (step s (Copy h)) = ROk /\
-    match nth_error (observe s') h, nth_error (observe s') (length (objs s)) with
-    | Some x, Some y => copy_match true (observe s') x y = false /\ wf_b (observe s) = true
-    | _, _ => False
-    end.
-Proof.
-  exists (run init [NewGraph; AddNode 0 (NVal ax)]), 0.
-  split; [eexists; reflexivity|]. vm_compute. repeat split.
-Qed.
-
-(** a copy of a FactorGraph rebuilds its label tables from nodes and edges and forgets the rest *)
-Lemma copy_refuted_factor_graph :
-  let s := run init [NewFactorGraph; AddNodeLabel 0 A; Copy 0] in
-  match nth_error (observe s) 0, nth_error (observe s) 1 with
-  | Some x, Some y => copy_match true (observe s) x y = false
-  | _, _ => False
-  end.
-Proof. vm_compute. reflexivity. Qed.
